@@ -91,10 +91,12 @@ SAN_FLAGS = ["-std=c++17", "-O1", "-g1", "-fsanitize=address,undefined", "-fno-s
 # two binaries of the same harness, built concurrently: 12-byte element (copy-based loser trees) and -DC07_FAT
 # (40-byte element owning its key on the heap, destructor poisons it: pointer-based loser trees)
 import concurrent.futures
-with concurrent.futures.ThreadPoolExecutor(2) as _ex:
+TSAN_FLAGS = ["-std=c++17", "-O1", "-g1", "-fsanitize=thread", "-DNDEBUG"]
+with concurrent.futures.ThreadPoolExecutor(3) as _ex:
     _f1 = _ex.submit(ck.build_cpp, "c07_harness", ["harness/C07/pmwm_harness.cpp"], SAN_FLAGS, REPO_SRC)
     _f2 = _ex.submit(ck.build_cpp, "c07_harness_fat", ["harness/C07/pmwm_harness.cpp"], SAN_FLAGS + ["-DC07_FAT"], REPO_SRC)
-    exe, log = _f1.result(); exe_fat, log_fat = _f2.result()
+    _f3 = _ex.submit(ck.build_cpp, "c07_tsan", ["harness/C07/pmwm_harness.cpp"], TSAN_FLAGS, REPO_SRC)
+    exe, log = _f1.result(); exe_fat, log_fat = _f2.result(); texe, tlog = _f3.result()
 if exe is not None and exe_fat is None:
     exe, log = None, log_fat
 drv, dlog = ck.ocaml_driver("C07")
@@ -172,6 +174,20 @@ def gen_huge(rng, out, n_cases, n_large):
         trunc = [(h + [255] * (min(L, size) - len(h)))[:min(L, size)] for L, h in zip(lens, heads)]
         mline = mk(entry, split, p, os_, mwma, 0, 1, 2, 1000, size, trunc)
         out.append((hline, mline, trunc, lens))
+
+def gen_tsan_sweep(rng, out):
+    """ThreadSanitizer sweep (every tier): k = 1..6 non-empty sequences x every MultiwayMergeAlgorithm x both splitting
+    requests x stable/unstable x three thread counts out of 2..8 (288 cases); no chunk is empty for the small thread counts"""
+    for k in range(1, 7):
+        for mwma in range(4):
+            for split in (0, 1):
+                for stable in (0, 1):
+                    for p in sorted(set([rng.range(2, 4), rng.range(4, 6), rng.range(6, 8)])):
+                        seqs = [sorted(rng.below(rng.choice([4, 60])) for _ in range(rng.range(8, 22))) for _ in range(k)]
+                        total = sum(map(len, seqs))
+                        size = total if rng.chance(3, 4) else rng.range(total // 2, total)
+                        entry = stable + 2 * rng.below(2)
+                        out.append(mk(entry, split, p, rng.choice(OS_VALUES), rng.below(2) * 100 + mwma, 0, 1, 2, 1000, size, seqs))
 
 def gen_algo_sweep(rng, out):
     """every MultiwayMergeAlgorithm value x k = 2..9 x non-sentinel entry points x both memory regimes x both element
@@ -320,7 +336,7 @@ stats = {"corpus": len(corpus), "exact": 0, "sampling": 0, "sequential_fallback"
 distinct = set()
 samples = []
 evaluations = 0
-tsan_note = "not run in this tier"
+tsan_note = "not run"
 
 
 def run_file(binary, lines, timeout):
@@ -466,26 +482,38 @@ else:
         samples += [{"case": todo[i], "impl": str(impl[i])[:300], "model": model[i][:300]} for i in pick if 0 <= i < len(impl) and i < len(todo)]
         if ms_cases: samples.append({"case": ms_cases[0][1][:300]})
 
-    # --- ThreadSanitizer run (thorough tier): same harness, a slice of the parallel cases
-    if ck.thorough() and not ck.replay:
-        texe, tlog = ck.build_cpp("c07_tsan", ["harness/C07/pmwm_harness.cpp"], repo_sources=REPO_SRC,
-                                  flags=["-std=c++17", "-O1", "-g1", "-fsanitize=thread"])
-        if texe is None:
-            tsan_note = "TSan build failed: " + tlog[-300:]
+    # --- ThreadSanitizer (every tier): a dedicated sweep over (k, algorithm, splitting, stable, threads); thorough: in addition a
+    #     slice of the generated parallel cases.  Every report is a VIOLATION with the case that was running as replay.
+    if texe is None:
+        tsan_note = "TSan build failed: " + tlog[-300:]
+        ck.violation("ThreadSanitizer build of the harness failed", {"correspondence": "harness/C07/pmwm_harness.cpp -fsanitize=thread", "log": tlog[-2000:]}, no_input=True)
+    else:
+        tl = []
+        if ck.replay:
+            tl = [c for c in cases if goes_parallel(parse(c))]
         else:
-            sl = [l for l, c in zip(todo, tp) if goes_parallel(c)][:6000]
-            fn = os.path.join(ck.scratch, "tsan.txt"); open(fn, "w").write("\n".join(sl) + "\n")
-            r, o = verif.sh([texe, fn], timeout=2400, env=dict(os.environ, TSAN_OPTIONS="halt_on_error=1 exitcode=66"))
-            if "ThreadSanitizer" in o and "data race" in o:
-                found = True
-                nl = len([l for l in o.splitlines() if l.startswith("ret=")])
-                ck.violation("ThreadSanitizer reports a data race inside the parallel merge",
-                             {"case": sl[nl] if nl < len(sl) else None, "log_tail": o[-2500:]})
-                tsan_note = "race reported"
-            elif r != 0:
-                tsan_note = "TSan run ended with rc=%d (no race report): %s" % (r, o[-200:])
-            else:
-                tsan_note = "%d parallel cases under -fsanitize=thread, no report" % len(sl)
+            gen_tsan_sweep(rng, tl)
+            if ck.thorough():
+                tl += [l for l, c in zip(todo, tp) if goes_parallel(c) and c["kind"] == 0][:6000]
+        tenv = dict(os.environ, TSAN_OPTIONS="halt_on_error=1 exitcode=66")
+        start = 0; reports = 0; ran = 0
+        while start < len(tl) and reports < 3:
+            fn = os.path.join(ck.scratch, "tsan_%d.txt" % start); open(fn, "w").write("\n".join(tl[start:]) + "\n")
+            r, o = verif.sh([texe, fn], timeout=2400, env=tenv)
+            nl = len([l for l in o.splitlines() if l.startswith("ret=")])
+            ran += nl
+            if r == 0 and nl == len(tl) - start: break
+            bad = start + nl
+            if bad >= len(tl): break
+            found = True; reports += 1
+            race = "ThreadSanitizer" in o and "data race" in o
+            ck.violation("ThreadSanitizer reports a data race inside the parallel merge" if race else
+                         "the ThreadSanitizer build of the harness fails (rc=%d) on a valid input" % r,
+                         {"case": tl[bad], "log_tail": o[-3000:]})
+            start = bad + 1
+        evaluations += ran
+        stats["tsan_cases"] = ran
+        tsan_note = ("%d data race report(s)" % reports) if reports else "%d parallel cases under -fsanitize=thread (sweep k 1..6 x algorithm x splitting x stable x threads 2..8%s), no report" % (ran, " + slice of the generated cases" if ck.thorough() else "")
 
 if pr is not None and not pr["ok"]:
     ck.proof_broken(found)
@@ -508,6 +536,6 @@ ck.finish({
     "sample index of the sampling splitter is modelled by the exact integer floor; cases where the C++ double arithmetic rounds differently (flag fp=1, counted in input_distribution.fp_rounding_cases) are compared on everything except the per-thread windows",
     "std::sort/std::stable_sort of the samples and std::upper_bound are modelled by their specification",
     "huge-totals family: the model cannot execute lists of 2^32 elements; it is run on every sequence truncated to its first `size` elements, which has the same first `size` merged elements and cursors (informal argument; the theorems themselves hold for lists of any length); per-thread windows are not compared there (plain output)",
-    "data races at the C++ level are outside the model: supported by the exactly-once writer log on every case and by ThreadSanitizer in the thorough tier",
+    "data races at the C++ level are outside the model: supported by the exactly-once writer log on every logged case and by a ThreadSanitizer sweep (k 1..6 x merge algorithm x splitting x stable/unstable x 2..8 threads) on every run, plus a slice of the generated cases in the thorough tier",
     "extraction: ExtrOcamlBasic only",
 ])
